@@ -43,3 +43,21 @@ func Keys[K cmp.Ordered, V any](m map[K]V) []K {
 	}
 	return ks
 }
+
+// YieldPoint is a scheduling point that touches no simulated state (the
+// BlockSource seam of S-SHARE).
+func YieldPoint(kind string) {
+	s := G
+	if s == nil {
+		return
+	}
+	t := s.cur
+	if t == nil || t.quiet > 0 {
+		return
+	}
+	c := Call{Kind: kind}
+	if !t.yield(c) {
+		return
+	}
+	Record(t, c, false, 0, 0, nil)
+}
